@@ -2,8 +2,9 @@
    (pacti/iocontract/iocontract.py, translated into gen/AlgebraGen.v) to be
    sound.  This is the *documented contract* of the abstract TermList methods
    (docstrings of elim_vars_by_refining / elim_vars_by_relaxing / simplify /
-   refines), stated for an arbitrary type of behaviours and an arbitrary meaning
-   of a single term.  Property C05 quantifies over every Domain and every
+   refines), stated for an arbitrary type of behaviours, an arbitrary meaning
+   of a single term and an arbitrary invariant `wf` on terms (the contracts are
+   only required on well-formed arguments, and must preserve well-formedness).  Property C05 quantifies over every Domain and every
    DomainSpec; C01/C02/C08 instantiate it with polyhedra.
 
    Only definitions here (no proofs), so that the statements can be read on
@@ -20,25 +21,35 @@ Variable dt : term -> B -> Prop.           (* meaning of one constraint *)
 (* a TermList means the conjunction of its terms *)
 Definition den (l : list term) (b : B) : Prop := Forall (fun t => dt t b) l.
 
+(* an invariant on terms (e.g. "the dict of coefficients has unique keys"): the
+   primitives need to meet their contracts only on well-formed arguments, and
+   must preserve well-formedness; wf := fun _ => True recovers the plain spec *)
+Variable wf : term -> Prop.
+Definition wfs (l : list term) : Prop := Forall wf l.
+Definition wfc (c : contract) : Prop := wfs (c_a c) /\ wfs (c_g c).
+
 (* the documented contracts of the primitives; each primitive may fail (inr _)
    and then promises nothing *)
 Record DomainSpec : Prop := {
-  (* Term.__eq__ only identifies constraints with the same meaning *)
-  eqb_sound : forall t1 t2, term_eqb t1 t2 = true -> forall b, dt t1 b <-> dt t2 b;
+  (* Term.__eq__ only identifies (well-formed) constraints with the same meaning *)
+  eqb_sound : forall t1 t2, wf t1 -> wf t2 -> term_eqb t1 t2 = true -> forall b, dt t1 b <-> dt t2 b;
   (* elim_vars_by_refining: Gamma: x / Gamma: s *)
-  refine_ok : forall s ctx vs sp od r st,
+  refine_ok : forall s ctx vs sp od r st, wfs s -> wfs ctx ->
       p_elim_refine s ctx vs sp od = inl (r, st) ->
-      forall b, den ctx b -> den r b -> den s b;
+      wfs r /\ forall b, den ctx b -> den r b -> den s b;
   (* elim_vars_by_relaxing: Gamma: s / Gamma: x *)
-  relax_ok : forall s ctx vs sp od r st,
+  relax_ok : forall s ctx vs sp od r st, wfs s -> wfs ctx ->
       p_elim_relax s ctx vs sp od = inl (r, st) ->
-      forall b, den ctx b -> den s b -> den r b;
+      wfs r /\ forall b, den ctx b -> den s b -> den r b;
   (* simplify: an equivalence wherever the context holds (no context = True) *)
-  simpl_ok : forall s ctx r,
+  simpl_ok : forall s ctx r, wfs s -> wfs (opt_list ctx) ->
       p_simplify s ctx = inl r ->
-      forall b, den (opt_list ctx) b -> (den r b <-> den s b);
+      wfs r /\ forall b, den (opt_list ctx) b -> (den r b <-> den s b);
   (* refines: True only for containment *)
-  refines_ok : forall x y, p_refines x y = inl true -> forall b, den x b -> den y b
+  refines_ok : forall x y, wfs x -> wfs y ->
+      p_refines x y = inl true -> forall b, den x b -> den y b;
+  (* renaming a variable preserves the invariant *)
+  rename_wf : forall t s u, wf t -> wf (term_rename t s u)
 }.
 
 (* a component honours its contract at b: it delivers its guarantees whenever
